@@ -24,9 +24,9 @@ func (m *MapBoolBool) PicoEncode(enc *picobuf.Encoder, field picobuf.FieldNumber
 //
 //go:noinline
 func (m *MapBoolBool) PicoDecode(dec *picobuf.Decoder, field picobuf.FieldNumber) {
-	var key bool
-	var val bool
 	dec.RepeatedMessage(field, func(c *picobuf.Decoder) {
+		var key bool
+		var val bool
 		if *m == nil {
 			*m = map[bool]bool{}
 		}
@@ -57,9 +57,9 @@ func (m *MapBoolInt32) PicoEncode(enc *picobuf.Encoder, field picobuf.FieldNumbe
 //
 //go:noinline
 func (m *MapBoolInt32) PicoDecode(dec *picobuf.Decoder, field picobuf.FieldNumber) {
-	var key bool
-	var val int32
 	dec.RepeatedMessage(field, func(c *picobuf.Decoder) {
+		var key bool
+		var val int32
 		if *m == nil {
 			*m = map[bool]int32{}
 		}
@@ -90,9 +90,9 @@ func (m *MapBoolInt64) PicoEncode(enc *picobuf.Encoder, field picobuf.FieldNumbe
 //
 //go:noinline
 func (m *MapBoolInt64) PicoDecode(dec *picobuf.Decoder, field picobuf.FieldNumber) {
-	var key bool
-	var val int64
 	dec.RepeatedMessage(field, func(c *picobuf.Decoder) {
+		var key bool
+		var val int64
 		if *m == nil {
 			*m = map[bool]int64{}
 		}
@@ -123,9 +123,9 @@ func (m *MapBoolUint32) PicoEncode(enc *picobuf.Encoder, field picobuf.FieldNumb
 //
 //go:noinline
 func (m *MapBoolUint32) PicoDecode(dec *picobuf.Decoder, field picobuf.FieldNumber) {
-	var key bool
-	var val uint32
 	dec.RepeatedMessage(field, func(c *picobuf.Decoder) {
+		var key bool
+		var val uint32
 		if *m == nil {
 			*m = map[bool]uint32{}
 		}
@@ -156,9 +156,9 @@ func (m *MapBoolUint64) PicoEncode(enc *picobuf.Encoder, field picobuf.FieldNumb
 //
 //go:noinline
 func (m *MapBoolUint64) PicoDecode(dec *picobuf.Decoder, field picobuf.FieldNumber) {
-	var key bool
-	var val uint64
 	dec.RepeatedMessage(field, func(c *picobuf.Decoder) {
+		var key bool
+		var val uint64
 		if *m == nil {
 			*m = map[bool]uint64{}
 		}
@@ -189,9 +189,9 @@ func (m *MapBoolSint32) PicoEncode(enc *picobuf.Encoder, field picobuf.FieldNumb
 //
 //go:noinline
 func (m *MapBoolSint32) PicoDecode(dec *picobuf.Decoder, field picobuf.FieldNumber) {
-	var key bool
-	var val int32
 	dec.RepeatedMessage(field, func(c *picobuf.Decoder) {
+		var key bool
+		var val int32
 		if *m == nil {
 			*m = map[bool]int32{}
 		}
@@ -222,9 +222,9 @@ func (m *MapBoolSint64) PicoEncode(enc *picobuf.Encoder, field picobuf.FieldNumb
 //
 //go:noinline
 func (m *MapBoolSint64) PicoDecode(dec *picobuf.Decoder, field picobuf.FieldNumber) {
-	var key bool
-	var val int64
 	dec.RepeatedMessage(field, func(c *picobuf.Decoder) {
+		var key bool
+		var val int64
 		if *m == nil {
 			*m = map[bool]int64{}
 		}
@@ -255,9 +255,9 @@ func (m *MapBoolFixed32) PicoEncode(enc *picobuf.Encoder, field picobuf.FieldNum
 //
 //go:noinline
 func (m *MapBoolFixed32) PicoDecode(dec *picobuf.Decoder, field picobuf.FieldNumber) {
-	var key bool
-	var val uint32
 	dec.RepeatedMessage(field, func(c *picobuf.Decoder) {
+		var key bool
+		var val uint32
 		if *m == nil {
 			*m = map[bool]uint32{}
 		}
@@ -288,9 +288,9 @@ func (m *MapBoolFixed64) PicoEncode(enc *picobuf.Encoder, field picobuf.FieldNum
 //
 //go:noinline
 func (m *MapBoolFixed64) PicoDecode(dec *picobuf.Decoder, field picobuf.FieldNumber) {
-	var key bool
-	var val uint64
 	dec.RepeatedMessage(field, func(c *picobuf.Decoder) {
+		var key bool
+		var val uint64
 		if *m == nil {
 			*m = map[bool]uint64{}
 		}
@@ -321,9 +321,9 @@ func (m *MapBoolSfixed32) PicoEncode(enc *picobuf.Encoder, field picobuf.FieldNu
 //
 //go:noinline
 func (m *MapBoolSfixed32) PicoDecode(dec *picobuf.Decoder, field picobuf.FieldNumber) {
-	var key bool
-	var val int32
 	dec.RepeatedMessage(field, func(c *picobuf.Decoder) {
+		var key bool
+		var val int32
 		if *m == nil {
 			*m = map[bool]int32{}
 		}
@@ -354,9 +354,9 @@ func (m *MapBoolSfixed64) PicoEncode(enc *picobuf.Encoder, field picobuf.FieldNu
 //
 //go:noinline
 func (m *MapBoolSfixed64) PicoDecode(dec *picobuf.Decoder, field picobuf.FieldNumber) {
-	var key bool
-	var val int64
 	dec.RepeatedMessage(field, func(c *picobuf.Decoder) {
+		var key bool
+		var val int64
 		if *m == nil {
 			*m = map[bool]int64{}
 		}
@@ -387,9 +387,9 @@ func (m *MapBoolFloat) PicoEncode(enc *picobuf.Encoder, field picobuf.FieldNumbe
 //
 //go:noinline
 func (m *MapBoolFloat) PicoDecode(dec *picobuf.Decoder, field picobuf.FieldNumber) {
-	var key bool
-	var val float32
 	dec.RepeatedMessage(field, func(c *picobuf.Decoder) {
+		var key bool
+		var val float32
 		if *m == nil {
 			*m = map[bool]float32{}
 		}
@@ -420,9 +420,9 @@ func (m *MapBoolDouble) PicoEncode(enc *picobuf.Encoder, field picobuf.FieldNumb
 //
 //go:noinline
 func (m *MapBoolDouble) PicoDecode(dec *picobuf.Decoder, field picobuf.FieldNumber) {
-	var key bool
-	var val float64
 	dec.RepeatedMessage(field, func(c *picobuf.Decoder) {
+		var key bool
+		var val float64
 		if *m == nil {
 			*m = map[bool]float64{}
 		}
@@ -453,9 +453,9 @@ func (m *MapBoolString) PicoEncode(enc *picobuf.Encoder, field picobuf.FieldNumb
 //
 //go:noinline
 func (m *MapBoolString) PicoDecode(dec *picobuf.Decoder, field picobuf.FieldNumber) {
-	var key bool
-	var val string
 	dec.RepeatedMessage(field, func(c *picobuf.Decoder) {
+		var key bool
+		var val string
 		if *m == nil {
 			*m = map[bool]string{}
 		}
@@ -486,9 +486,9 @@ func (m *MapBoolBytes) PicoEncode(enc *picobuf.Encoder, field picobuf.FieldNumbe
 //
 //go:noinline
 func (m *MapBoolBytes) PicoDecode(dec *picobuf.Decoder, field picobuf.FieldNumber) {
-	var key bool
-	var val []byte
 	dec.RepeatedMessage(field, func(c *picobuf.Decoder) {
+		var key bool
+		var val []byte
 		if *m == nil {
 			*m = map[bool][]byte{}
 		}
@@ -519,9 +519,9 @@ func (m *MapInt32Bool) PicoEncode(enc *picobuf.Encoder, field picobuf.FieldNumbe
 //
 //go:noinline
 func (m *MapInt32Bool) PicoDecode(dec *picobuf.Decoder, field picobuf.FieldNumber) {
-	var key int32
-	var val bool
 	dec.RepeatedMessage(field, func(c *picobuf.Decoder) {
+		var key int32
+		var val bool
 		if *m == nil {
 			*m = map[int32]bool{}
 		}
@@ -552,9 +552,9 @@ func (m *MapInt32Int32) PicoEncode(enc *picobuf.Encoder, field picobuf.FieldNumb
 //
 //go:noinline
 func (m *MapInt32Int32) PicoDecode(dec *picobuf.Decoder, field picobuf.FieldNumber) {
-	var key int32
-	var val int32
 	dec.RepeatedMessage(field, func(c *picobuf.Decoder) {
+		var key int32
+		var val int32
 		if *m == nil {
 			*m = map[int32]int32{}
 		}
@@ -585,9 +585,9 @@ func (m *MapInt32Int64) PicoEncode(enc *picobuf.Encoder, field picobuf.FieldNumb
 //
 //go:noinline
 func (m *MapInt32Int64) PicoDecode(dec *picobuf.Decoder, field picobuf.FieldNumber) {
-	var key int32
-	var val int64
 	dec.RepeatedMessage(field, func(c *picobuf.Decoder) {
+		var key int32
+		var val int64
 		if *m == nil {
 			*m = map[int32]int64{}
 		}
@@ -618,9 +618,9 @@ func (m *MapInt32Uint32) PicoEncode(enc *picobuf.Encoder, field picobuf.FieldNum
 //
 //go:noinline
 func (m *MapInt32Uint32) PicoDecode(dec *picobuf.Decoder, field picobuf.FieldNumber) {
-	var key int32
-	var val uint32
 	dec.RepeatedMessage(field, func(c *picobuf.Decoder) {
+		var key int32
+		var val uint32
 		if *m == nil {
 			*m = map[int32]uint32{}
 		}
@@ -651,9 +651,9 @@ func (m *MapInt32Uint64) PicoEncode(enc *picobuf.Encoder, field picobuf.FieldNum
 //
 //go:noinline
 func (m *MapInt32Uint64) PicoDecode(dec *picobuf.Decoder, field picobuf.FieldNumber) {
-	var key int32
-	var val uint64
 	dec.RepeatedMessage(field, func(c *picobuf.Decoder) {
+		var key int32
+		var val uint64
 		if *m == nil {
 			*m = map[int32]uint64{}
 		}
@@ -684,9 +684,9 @@ func (m *MapInt32Sint32) PicoEncode(enc *picobuf.Encoder, field picobuf.FieldNum
 //
 //go:noinline
 func (m *MapInt32Sint32) PicoDecode(dec *picobuf.Decoder, field picobuf.FieldNumber) {
-	var key int32
-	var val int32
 	dec.RepeatedMessage(field, func(c *picobuf.Decoder) {
+		var key int32
+		var val int32
 		if *m == nil {
 			*m = map[int32]int32{}
 		}
@@ -717,9 +717,9 @@ func (m *MapInt32Sint64) PicoEncode(enc *picobuf.Encoder, field picobuf.FieldNum
 //
 //go:noinline
 func (m *MapInt32Sint64) PicoDecode(dec *picobuf.Decoder, field picobuf.FieldNumber) {
-	var key int32
-	var val int64
 	dec.RepeatedMessage(field, func(c *picobuf.Decoder) {
+		var key int32
+		var val int64
 		if *m == nil {
 			*m = map[int32]int64{}
 		}
@@ -750,9 +750,9 @@ func (m *MapInt32Fixed32) PicoEncode(enc *picobuf.Encoder, field picobuf.FieldNu
 //
 //go:noinline
 func (m *MapInt32Fixed32) PicoDecode(dec *picobuf.Decoder, field picobuf.FieldNumber) {
-	var key int32
-	var val uint32
 	dec.RepeatedMessage(field, func(c *picobuf.Decoder) {
+		var key int32
+		var val uint32
 		if *m == nil {
 			*m = map[int32]uint32{}
 		}
@@ -783,9 +783,9 @@ func (m *MapInt32Fixed64) PicoEncode(enc *picobuf.Encoder, field picobuf.FieldNu
 //
 //go:noinline
 func (m *MapInt32Fixed64) PicoDecode(dec *picobuf.Decoder, field picobuf.FieldNumber) {
-	var key int32
-	var val uint64
 	dec.RepeatedMessage(field, func(c *picobuf.Decoder) {
+		var key int32
+		var val uint64
 		if *m == nil {
 			*m = map[int32]uint64{}
 		}
@@ -816,9 +816,9 @@ func (m *MapInt32Sfixed32) PicoEncode(enc *picobuf.Encoder, field picobuf.FieldN
 //
 //go:noinline
 func (m *MapInt32Sfixed32) PicoDecode(dec *picobuf.Decoder, field picobuf.FieldNumber) {
-	var key int32
-	var val int32
 	dec.RepeatedMessage(field, func(c *picobuf.Decoder) {
+		var key int32
+		var val int32
 		if *m == nil {
 			*m = map[int32]int32{}
 		}
@@ -849,9 +849,9 @@ func (m *MapInt32Sfixed64) PicoEncode(enc *picobuf.Encoder, field picobuf.FieldN
 //
 //go:noinline
 func (m *MapInt32Sfixed64) PicoDecode(dec *picobuf.Decoder, field picobuf.FieldNumber) {
-	var key int32
-	var val int64
 	dec.RepeatedMessage(field, func(c *picobuf.Decoder) {
+		var key int32
+		var val int64
 		if *m == nil {
 			*m = map[int32]int64{}
 		}
@@ -882,9 +882,9 @@ func (m *MapInt32Float) PicoEncode(enc *picobuf.Encoder, field picobuf.FieldNumb
 //
 //go:noinline
 func (m *MapInt32Float) PicoDecode(dec *picobuf.Decoder, field picobuf.FieldNumber) {
-	var key int32
-	var val float32
 	dec.RepeatedMessage(field, func(c *picobuf.Decoder) {
+		var key int32
+		var val float32
 		if *m == nil {
 			*m = map[int32]float32{}
 		}
@@ -915,9 +915,9 @@ func (m *MapInt32Double) PicoEncode(enc *picobuf.Encoder, field picobuf.FieldNum
 //
 //go:noinline
 func (m *MapInt32Double) PicoDecode(dec *picobuf.Decoder, field picobuf.FieldNumber) {
-	var key int32
-	var val float64
 	dec.RepeatedMessage(field, func(c *picobuf.Decoder) {
+		var key int32
+		var val float64
 		if *m == nil {
 			*m = map[int32]float64{}
 		}
@@ -948,9 +948,9 @@ func (m *MapInt32String) PicoEncode(enc *picobuf.Encoder, field picobuf.FieldNum
 //
 //go:noinline
 func (m *MapInt32String) PicoDecode(dec *picobuf.Decoder, field picobuf.FieldNumber) {
-	var key int32
-	var val string
 	dec.RepeatedMessage(field, func(c *picobuf.Decoder) {
+		var key int32
+		var val string
 		if *m == nil {
 			*m = map[int32]string{}
 		}
@@ -981,9 +981,9 @@ func (m *MapInt32Bytes) PicoEncode(enc *picobuf.Encoder, field picobuf.FieldNumb
 //
 //go:noinline
 func (m *MapInt32Bytes) PicoDecode(dec *picobuf.Decoder, field picobuf.FieldNumber) {
-	var key int32
-	var val []byte
 	dec.RepeatedMessage(field, func(c *picobuf.Decoder) {
+		var key int32
+		var val []byte
 		if *m == nil {
 			*m = map[int32][]byte{}
 		}
@@ -1014,9 +1014,9 @@ func (m *MapInt64Bool) PicoEncode(enc *picobuf.Encoder, field picobuf.FieldNumbe
 //
 //go:noinline
 func (m *MapInt64Bool) PicoDecode(dec *picobuf.Decoder, field picobuf.FieldNumber) {
-	var key int64
-	var val bool
 	dec.RepeatedMessage(field, func(c *picobuf.Decoder) {
+		var key int64
+		var val bool
 		if *m == nil {
 			*m = map[int64]bool{}
 		}
@@ -1047,9 +1047,9 @@ func (m *MapInt64Int32) PicoEncode(enc *picobuf.Encoder, field picobuf.FieldNumb
 //
 //go:noinline
 func (m *MapInt64Int32) PicoDecode(dec *picobuf.Decoder, field picobuf.FieldNumber) {
-	var key int64
-	var val int32
 	dec.RepeatedMessage(field, func(c *picobuf.Decoder) {
+		var key int64
+		var val int32
 		if *m == nil {
 			*m = map[int64]int32{}
 		}
@@ -1080,9 +1080,9 @@ func (m *MapInt64Int64) PicoEncode(enc *picobuf.Encoder, field picobuf.FieldNumb
 //
 //go:noinline
 func (m *MapInt64Int64) PicoDecode(dec *picobuf.Decoder, field picobuf.FieldNumber) {
-	var key int64
-	var val int64
 	dec.RepeatedMessage(field, func(c *picobuf.Decoder) {
+		var key int64
+		var val int64
 		if *m == nil {
 			*m = map[int64]int64{}
 		}
@@ -1113,9 +1113,9 @@ func (m *MapInt64Uint32) PicoEncode(enc *picobuf.Encoder, field picobuf.FieldNum
 //
 //go:noinline
 func (m *MapInt64Uint32) PicoDecode(dec *picobuf.Decoder, field picobuf.FieldNumber) {
-	var key int64
-	var val uint32
 	dec.RepeatedMessage(field, func(c *picobuf.Decoder) {
+		var key int64
+		var val uint32
 		if *m == nil {
 			*m = map[int64]uint32{}
 		}
@@ -1146,9 +1146,9 @@ func (m *MapInt64Uint64) PicoEncode(enc *picobuf.Encoder, field picobuf.FieldNum
 //
 //go:noinline
 func (m *MapInt64Uint64) PicoDecode(dec *picobuf.Decoder, field picobuf.FieldNumber) {
-	var key int64
-	var val uint64
 	dec.RepeatedMessage(field, func(c *picobuf.Decoder) {
+		var key int64
+		var val uint64
 		if *m == nil {
 			*m = map[int64]uint64{}
 		}
@@ -1179,9 +1179,9 @@ func (m *MapInt64Sint32) PicoEncode(enc *picobuf.Encoder, field picobuf.FieldNum
 //
 //go:noinline
 func (m *MapInt64Sint32) PicoDecode(dec *picobuf.Decoder, field picobuf.FieldNumber) {
-	var key int64
-	var val int32
 	dec.RepeatedMessage(field, func(c *picobuf.Decoder) {
+		var key int64
+		var val int32
 		if *m == nil {
 			*m = map[int64]int32{}
 		}
@@ -1212,9 +1212,9 @@ func (m *MapInt64Sint64) PicoEncode(enc *picobuf.Encoder, field picobuf.FieldNum
 //
 //go:noinline
 func (m *MapInt64Sint64) PicoDecode(dec *picobuf.Decoder, field picobuf.FieldNumber) {
-	var key int64
-	var val int64
 	dec.RepeatedMessage(field, func(c *picobuf.Decoder) {
+		var key int64
+		var val int64
 		if *m == nil {
 			*m = map[int64]int64{}
 		}
@@ -1245,9 +1245,9 @@ func (m *MapInt64Fixed32) PicoEncode(enc *picobuf.Encoder, field picobuf.FieldNu
 //
 //go:noinline
 func (m *MapInt64Fixed32) PicoDecode(dec *picobuf.Decoder, field picobuf.FieldNumber) {
-	var key int64
-	var val uint32
 	dec.RepeatedMessage(field, func(c *picobuf.Decoder) {
+		var key int64
+		var val uint32
 		if *m == nil {
 			*m = map[int64]uint32{}
 		}
@@ -1278,9 +1278,9 @@ func (m *MapInt64Fixed64) PicoEncode(enc *picobuf.Encoder, field picobuf.FieldNu
 //
 //go:noinline
 func (m *MapInt64Fixed64) PicoDecode(dec *picobuf.Decoder, field picobuf.FieldNumber) {
-	var key int64
-	var val uint64
 	dec.RepeatedMessage(field, func(c *picobuf.Decoder) {
+		var key int64
+		var val uint64
 		if *m == nil {
 			*m = map[int64]uint64{}
 		}
@@ -1311,9 +1311,9 @@ func (m *MapInt64Sfixed32) PicoEncode(enc *picobuf.Encoder, field picobuf.FieldN
 //
 //go:noinline
 func (m *MapInt64Sfixed32) PicoDecode(dec *picobuf.Decoder, field picobuf.FieldNumber) {
-	var key int64
-	var val int32
 	dec.RepeatedMessage(field, func(c *picobuf.Decoder) {
+		var key int64
+		var val int32
 		if *m == nil {
 			*m = map[int64]int32{}
 		}
@@ -1344,9 +1344,9 @@ func (m *MapInt64Sfixed64) PicoEncode(enc *picobuf.Encoder, field picobuf.FieldN
 //
 //go:noinline
 func (m *MapInt64Sfixed64) PicoDecode(dec *picobuf.Decoder, field picobuf.FieldNumber) {
-	var key int64
-	var val int64
 	dec.RepeatedMessage(field, func(c *picobuf.Decoder) {
+		var key int64
+		var val int64
 		if *m == nil {
 			*m = map[int64]int64{}
 		}
@@ -1377,9 +1377,9 @@ func (m *MapInt64Float) PicoEncode(enc *picobuf.Encoder, field picobuf.FieldNumb
 //
 //go:noinline
 func (m *MapInt64Float) PicoDecode(dec *picobuf.Decoder, field picobuf.FieldNumber) {
-	var key int64
-	var val float32
 	dec.RepeatedMessage(field, func(c *picobuf.Decoder) {
+		var key int64
+		var val float32
 		if *m == nil {
 			*m = map[int64]float32{}
 		}
@@ -1410,9 +1410,9 @@ func (m *MapInt64Double) PicoEncode(enc *picobuf.Encoder, field picobuf.FieldNum
 //
 //go:noinline
 func (m *MapInt64Double) PicoDecode(dec *picobuf.Decoder, field picobuf.FieldNumber) {
-	var key int64
-	var val float64
 	dec.RepeatedMessage(field, func(c *picobuf.Decoder) {
+		var key int64
+		var val float64
 		if *m == nil {
 			*m = map[int64]float64{}
 		}
@@ -1443,9 +1443,9 @@ func (m *MapInt64String) PicoEncode(enc *picobuf.Encoder, field picobuf.FieldNum
 //
 //go:noinline
 func (m *MapInt64String) PicoDecode(dec *picobuf.Decoder, field picobuf.FieldNumber) {
-	var key int64
-	var val string
 	dec.RepeatedMessage(field, func(c *picobuf.Decoder) {
+		var key int64
+		var val string
 		if *m == nil {
 			*m = map[int64]string{}
 		}
@@ -1476,9 +1476,9 @@ func (m *MapInt64Bytes) PicoEncode(enc *picobuf.Encoder, field picobuf.FieldNumb
 //
 //go:noinline
 func (m *MapInt64Bytes) PicoDecode(dec *picobuf.Decoder, field picobuf.FieldNumber) {
-	var key int64
-	var val []byte
 	dec.RepeatedMessage(field, func(c *picobuf.Decoder) {
+		var key int64
+		var val []byte
 		if *m == nil {
 			*m = map[int64][]byte{}
 		}
@@ -1509,9 +1509,9 @@ func (m *MapUint32Bool) PicoEncode(enc *picobuf.Encoder, field picobuf.FieldNumb
 //
 //go:noinline
 func (m *MapUint32Bool) PicoDecode(dec *picobuf.Decoder, field picobuf.FieldNumber) {
-	var key uint32
-	var val bool
 	dec.RepeatedMessage(field, func(c *picobuf.Decoder) {
+		var key uint32
+		var val bool
 		if *m == nil {
 			*m = map[uint32]bool{}
 		}
@@ -1542,9 +1542,9 @@ func (m *MapUint32Int32) PicoEncode(enc *picobuf.Encoder, field picobuf.FieldNum
 //
 //go:noinline
 func (m *MapUint32Int32) PicoDecode(dec *picobuf.Decoder, field picobuf.FieldNumber) {
-	var key uint32
-	var val int32
 	dec.RepeatedMessage(field, func(c *picobuf.Decoder) {
+		var key uint32
+		var val int32
 		if *m == nil {
 			*m = map[uint32]int32{}
 		}
@@ -1575,9 +1575,9 @@ func (m *MapUint32Int64) PicoEncode(enc *picobuf.Encoder, field picobuf.FieldNum
 //
 //go:noinline
 func (m *MapUint32Int64) PicoDecode(dec *picobuf.Decoder, field picobuf.FieldNumber) {
-	var key uint32
-	var val int64
 	dec.RepeatedMessage(field, func(c *picobuf.Decoder) {
+		var key uint32
+		var val int64
 		if *m == nil {
 			*m = map[uint32]int64{}
 		}
@@ -1608,9 +1608,9 @@ func (m *MapUint32Uint32) PicoEncode(enc *picobuf.Encoder, field picobuf.FieldNu
 //
 //go:noinline
 func (m *MapUint32Uint32) PicoDecode(dec *picobuf.Decoder, field picobuf.FieldNumber) {
-	var key uint32
-	var val uint32
 	dec.RepeatedMessage(field, func(c *picobuf.Decoder) {
+		var key uint32
+		var val uint32
 		if *m == nil {
 			*m = map[uint32]uint32{}
 		}
@@ -1641,9 +1641,9 @@ func (m *MapUint32Uint64) PicoEncode(enc *picobuf.Encoder, field picobuf.FieldNu
 //
 //go:noinline
 func (m *MapUint32Uint64) PicoDecode(dec *picobuf.Decoder, field picobuf.FieldNumber) {
-	var key uint32
-	var val uint64
 	dec.RepeatedMessage(field, func(c *picobuf.Decoder) {
+		var key uint32
+		var val uint64
 		if *m == nil {
 			*m = map[uint32]uint64{}
 		}
@@ -1674,9 +1674,9 @@ func (m *MapUint32Sint32) PicoEncode(enc *picobuf.Encoder, field picobuf.FieldNu
 //
 //go:noinline
 func (m *MapUint32Sint32) PicoDecode(dec *picobuf.Decoder, field picobuf.FieldNumber) {
-	var key uint32
-	var val int32
 	dec.RepeatedMessage(field, func(c *picobuf.Decoder) {
+		var key uint32
+		var val int32
 		if *m == nil {
 			*m = map[uint32]int32{}
 		}
@@ -1707,9 +1707,9 @@ func (m *MapUint32Sint64) PicoEncode(enc *picobuf.Encoder, field picobuf.FieldNu
 //
 //go:noinline
 func (m *MapUint32Sint64) PicoDecode(dec *picobuf.Decoder, field picobuf.FieldNumber) {
-	var key uint32
-	var val int64
 	dec.RepeatedMessage(field, func(c *picobuf.Decoder) {
+		var key uint32
+		var val int64
 		if *m == nil {
 			*m = map[uint32]int64{}
 		}
@@ -1740,9 +1740,9 @@ func (m *MapUint32Fixed32) PicoEncode(enc *picobuf.Encoder, field picobuf.FieldN
 //
 //go:noinline
 func (m *MapUint32Fixed32) PicoDecode(dec *picobuf.Decoder, field picobuf.FieldNumber) {
-	var key uint32
-	var val uint32
 	dec.RepeatedMessage(field, func(c *picobuf.Decoder) {
+		var key uint32
+		var val uint32
 		if *m == nil {
 			*m = map[uint32]uint32{}
 		}
@@ -1773,9 +1773,9 @@ func (m *MapUint32Fixed64) PicoEncode(enc *picobuf.Encoder, field picobuf.FieldN
 //
 //go:noinline
 func (m *MapUint32Fixed64) PicoDecode(dec *picobuf.Decoder, field picobuf.FieldNumber) {
-	var key uint32
-	var val uint64
 	dec.RepeatedMessage(field, func(c *picobuf.Decoder) {
+		var key uint32
+		var val uint64
 		if *m == nil {
 			*m = map[uint32]uint64{}
 		}
@@ -1806,9 +1806,9 @@ func (m *MapUint32Sfixed32) PicoEncode(enc *picobuf.Encoder, field picobuf.Field
 //
 //go:noinline
 func (m *MapUint32Sfixed32) PicoDecode(dec *picobuf.Decoder, field picobuf.FieldNumber) {
-	var key uint32
-	var val int32
 	dec.RepeatedMessage(field, func(c *picobuf.Decoder) {
+		var key uint32
+		var val int32
 		if *m == nil {
 			*m = map[uint32]int32{}
 		}
@@ -1839,9 +1839,9 @@ func (m *MapUint32Sfixed64) PicoEncode(enc *picobuf.Encoder, field picobuf.Field
 //
 //go:noinline
 func (m *MapUint32Sfixed64) PicoDecode(dec *picobuf.Decoder, field picobuf.FieldNumber) {
-	var key uint32
-	var val int64
 	dec.RepeatedMessage(field, func(c *picobuf.Decoder) {
+		var key uint32
+		var val int64
 		if *m == nil {
 			*m = map[uint32]int64{}
 		}
@@ -1872,9 +1872,9 @@ func (m *MapUint32Float) PicoEncode(enc *picobuf.Encoder, field picobuf.FieldNum
 //
 //go:noinline
 func (m *MapUint32Float) PicoDecode(dec *picobuf.Decoder, field picobuf.FieldNumber) {
-	var key uint32
-	var val float32
 	dec.RepeatedMessage(field, func(c *picobuf.Decoder) {
+		var key uint32
+		var val float32
 		if *m == nil {
 			*m = map[uint32]float32{}
 		}
@@ -1905,9 +1905,9 @@ func (m *MapUint32Double) PicoEncode(enc *picobuf.Encoder, field picobuf.FieldNu
 //
 //go:noinline
 func (m *MapUint32Double) PicoDecode(dec *picobuf.Decoder, field picobuf.FieldNumber) {
-	var key uint32
-	var val float64
 	dec.RepeatedMessage(field, func(c *picobuf.Decoder) {
+		var key uint32
+		var val float64
 		if *m == nil {
 			*m = map[uint32]float64{}
 		}
@@ -1938,9 +1938,9 @@ func (m *MapUint32String) PicoEncode(enc *picobuf.Encoder, field picobuf.FieldNu
 //
 //go:noinline
 func (m *MapUint32String) PicoDecode(dec *picobuf.Decoder, field picobuf.FieldNumber) {
-	var key uint32
-	var val string
 	dec.RepeatedMessage(field, func(c *picobuf.Decoder) {
+		var key uint32
+		var val string
 		if *m == nil {
 			*m = map[uint32]string{}
 		}
@@ -1971,9 +1971,9 @@ func (m *MapUint32Bytes) PicoEncode(enc *picobuf.Encoder, field picobuf.FieldNum
 //
 //go:noinline
 func (m *MapUint32Bytes) PicoDecode(dec *picobuf.Decoder, field picobuf.FieldNumber) {
-	var key uint32
-	var val []byte
 	dec.RepeatedMessage(field, func(c *picobuf.Decoder) {
+		var key uint32
+		var val []byte
 		if *m == nil {
 			*m = map[uint32][]byte{}
 		}
@@ -2004,9 +2004,9 @@ func (m *MapUint64Bool) PicoEncode(enc *picobuf.Encoder, field picobuf.FieldNumb
 //
 //go:noinline
 func (m *MapUint64Bool) PicoDecode(dec *picobuf.Decoder, field picobuf.FieldNumber) {
-	var key uint64
-	var val bool
 	dec.RepeatedMessage(field, func(c *picobuf.Decoder) {
+		var key uint64
+		var val bool
 		if *m == nil {
 			*m = map[uint64]bool{}
 		}
@@ -2037,9 +2037,9 @@ func (m *MapUint64Int32) PicoEncode(enc *picobuf.Encoder, field picobuf.FieldNum
 //
 //go:noinline
 func (m *MapUint64Int32) PicoDecode(dec *picobuf.Decoder, field picobuf.FieldNumber) {
-	var key uint64
-	var val int32
 	dec.RepeatedMessage(field, func(c *picobuf.Decoder) {
+		var key uint64
+		var val int32
 		if *m == nil {
 			*m = map[uint64]int32{}
 		}
@@ -2070,9 +2070,9 @@ func (m *MapUint64Int64) PicoEncode(enc *picobuf.Encoder, field picobuf.FieldNum
 //
 //go:noinline
 func (m *MapUint64Int64) PicoDecode(dec *picobuf.Decoder, field picobuf.FieldNumber) {
-	var key uint64
-	var val int64
 	dec.RepeatedMessage(field, func(c *picobuf.Decoder) {
+		var key uint64
+		var val int64
 		if *m == nil {
 			*m = map[uint64]int64{}
 		}
@@ -2103,9 +2103,9 @@ func (m *MapUint64Uint32) PicoEncode(enc *picobuf.Encoder, field picobuf.FieldNu
 //
 //go:noinline
 func (m *MapUint64Uint32) PicoDecode(dec *picobuf.Decoder, field picobuf.FieldNumber) {
-	var key uint64
-	var val uint32
 	dec.RepeatedMessage(field, func(c *picobuf.Decoder) {
+		var key uint64
+		var val uint32
 		if *m == nil {
 			*m = map[uint64]uint32{}
 		}
@@ -2136,9 +2136,9 @@ func (m *MapUint64Uint64) PicoEncode(enc *picobuf.Encoder, field picobuf.FieldNu
 //
 //go:noinline
 func (m *MapUint64Uint64) PicoDecode(dec *picobuf.Decoder, field picobuf.FieldNumber) {
-	var key uint64
-	var val uint64
 	dec.RepeatedMessage(field, func(c *picobuf.Decoder) {
+		var key uint64
+		var val uint64
 		if *m == nil {
 			*m = map[uint64]uint64{}
 		}
@@ -2169,9 +2169,9 @@ func (m *MapUint64Sint32) PicoEncode(enc *picobuf.Encoder, field picobuf.FieldNu
 //
 //go:noinline
 func (m *MapUint64Sint32) PicoDecode(dec *picobuf.Decoder, field picobuf.FieldNumber) {
-	var key uint64
-	var val int32
 	dec.RepeatedMessage(field, func(c *picobuf.Decoder) {
+		var key uint64
+		var val int32
 		if *m == nil {
 			*m = map[uint64]int32{}
 		}
@@ -2202,9 +2202,9 @@ func (m *MapUint64Sint64) PicoEncode(enc *picobuf.Encoder, field picobuf.FieldNu
 //
 //go:noinline
 func (m *MapUint64Sint64) PicoDecode(dec *picobuf.Decoder, field picobuf.FieldNumber) {
-	var key uint64
-	var val int64
 	dec.RepeatedMessage(field, func(c *picobuf.Decoder) {
+		var key uint64
+		var val int64
 		if *m == nil {
 			*m = map[uint64]int64{}
 		}
@@ -2235,9 +2235,9 @@ func (m *MapUint64Fixed32) PicoEncode(enc *picobuf.Encoder, field picobuf.FieldN
 //
 //go:noinline
 func (m *MapUint64Fixed32) PicoDecode(dec *picobuf.Decoder, field picobuf.FieldNumber) {
-	var key uint64
-	var val uint32
 	dec.RepeatedMessage(field, func(c *picobuf.Decoder) {
+		var key uint64
+		var val uint32
 		if *m == nil {
 			*m = map[uint64]uint32{}
 		}
@@ -2268,9 +2268,9 @@ func (m *MapUint64Fixed64) PicoEncode(enc *picobuf.Encoder, field picobuf.FieldN
 //
 //go:noinline
 func (m *MapUint64Fixed64) PicoDecode(dec *picobuf.Decoder, field picobuf.FieldNumber) {
-	var key uint64
-	var val uint64
 	dec.RepeatedMessage(field, func(c *picobuf.Decoder) {
+		var key uint64
+		var val uint64
 		if *m == nil {
 			*m = map[uint64]uint64{}
 		}
@@ -2301,9 +2301,9 @@ func (m *MapUint64Sfixed32) PicoEncode(enc *picobuf.Encoder, field picobuf.Field
 //
 //go:noinline
 func (m *MapUint64Sfixed32) PicoDecode(dec *picobuf.Decoder, field picobuf.FieldNumber) {
-	var key uint64
-	var val int32
 	dec.RepeatedMessage(field, func(c *picobuf.Decoder) {
+		var key uint64
+		var val int32
 		if *m == nil {
 			*m = map[uint64]int32{}
 		}
@@ -2334,9 +2334,9 @@ func (m *MapUint64Sfixed64) PicoEncode(enc *picobuf.Encoder, field picobuf.Field
 //
 //go:noinline
 func (m *MapUint64Sfixed64) PicoDecode(dec *picobuf.Decoder, field picobuf.FieldNumber) {
-	var key uint64
-	var val int64
 	dec.RepeatedMessage(field, func(c *picobuf.Decoder) {
+		var key uint64
+		var val int64
 		if *m == nil {
 			*m = map[uint64]int64{}
 		}
@@ -2367,9 +2367,9 @@ func (m *MapUint64Float) PicoEncode(enc *picobuf.Encoder, field picobuf.FieldNum
 //
 //go:noinline
 func (m *MapUint64Float) PicoDecode(dec *picobuf.Decoder, field picobuf.FieldNumber) {
-	var key uint64
-	var val float32
 	dec.RepeatedMessage(field, func(c *picobuf.Decoder) {
+		var key uint64
+		var val float32
 		if *m == nil {
 			*m = map[uint64]float32{}
 		}
@@ -2400,9 +2400,9 @@ func (m *MapUint64Double) PicoEncode(enc *picobuf.Encoder, field picobuf.FieldNu
 //
 //go:noinline
 func (m *MapUint64Double) PicoDecode(dec *picobuf.Decoder, field picobuf.FieldNumber) {
-	var key uint64
-	var val float64
 	dec.RepeatedMessage(field, func(c *picobuf.Decoder) {
+		var key uint64
+		var val float64
 		if *m == nil {
 			*m = map[uint64]float64{}
 		}
@@ -2433,9 +2433,9 @@ func (m *MapUint64String) PicoEncode(enc *picobuf.Encoder, field picobuf.FieldNu
 //
 //go:noinline
 func (m *MapUint64String) PicoDecode(dec *picobuf.Decoder, field picobuf.FieldNumber) {
-	var key uint64
-	var val string
 	dec.RepeatedMessage(field, func(c *picobuf.Decoder) {
+		var key uint64
+		var val string
 		if *m == nil {
 			*m = map[uint64]string{}
 		}
@@ -2466,9 +2466,9 @@ func (m *MapUint64Bytes) PicoEncode(enc *picobuf.Encoder, field picobuf.FieldNum
 //
 //go:noinline
 func (m *MapUint64Bytes) PicoDecode(dec *picobuf.Decoder, field picobuf.FieldNumber) {
-	var key uint64
-	var val []byte
 	dec.RepeatedMessage(field, func(c *picobuf.Decoder) {
+		var key uint64
+		var val []byte
 		if *m == nil {
 			*m = map[uint64][]byte{}
 		}
@@ -2499,9 +2499,9 @@ func (m *MapSint32Bool) PicoEncode(enc *picobuf.Encoder, field picobuf.FieldNumb
 //
 //go:noinline
 func (m *MapSint32Bool) PicoDecode(dec *picobuf.Decoder, field picobuf.FieldNumber) {
-	var key int32
-	var val bool
 	dec.RepeatedMessage(field, func(c *picobuf.Decoder) {
+		var key int32
+		var val bool
 		if *m == nil {
 			*m = map[int32]bool{}
 		}
@@ -2532,9 +2532,9 @@ func (m *MapSint32Int32) PicoEncode(enc *picobuf.Encoder, field picobuf.FieldNum
 //
 //go:noinline
 func (m *MapSint32Int32) PicoDecode(dec *picobuf.Decoder, field picobuf.FieldNumber) {
-	var key int32
-	var val int32
 	dec.RepeatedMessage(field, func(c *picobuf.Decoder) {
+		var key int32
+		var val int32
 		if *m == nil {
 			*m = map[int32]int32{}
 		}
@@ -2565,9 +2565,9 @@ func (m *MapSint32Int64) PicoEncode(enc *picobuf.Encoder, field picobuf.FieldNum
 //
 //go:noinline
 func (m *MapSint32Int64) PicoDecode(dec *picobuf.Decoder, field picobuf.FieldNumber) {
-	var key int32
-	var val int64
 	dec.RepeatedMessage(field, func(c *picobuf.Decoder) {
+		var key int32
+		var val int64
 		if *m == nil {
 			*m = map[int32]int64{}
 		}
@@ -2598,9 +2598,9 @@ func (m *MapSint32Uint32) PicoEncode(enc *picobuf.Encoder, field picobuf.FieldNu
 //
 //go:noinline
 func (m *MapSint32Uint32) PicoDecode(dec *picobuf.Decoder, field picobuf.FieldNumber) {
-	var key int32
-	var val uint32
 	dec.RepeatedMessage(field, func(c *picobuf.Decoder) {
+		var key int32
+		var val uint32
 		if *m == nil {
 			*m = map[int32]uint32{}
 		}
@@ -2631,9 +2631,9 @@ func (m *MapSint32Uint64) PicoEncode(enc *picobuf.Encoder, field picobuf.FieldNu
 //
 //go:noinline
 func (m *MapSint32Uint64) PicoDecode(dec *picobuf.Decoder, field picobuf.FieldNumber) {
-	var key int32
-	var val uint64
 	dec.RepeatedMessage(field, func(c *picobuf.Decoder) {
+		var key int32
+		var val uint64
 		if *m == nil {
 			*m = map[int32]uint64{}
 		}
@@ -2664,9 +2664,9 @@ func (m *MapSint32Sint32) PicoEncode(enc *picobuf.Encoder, field picobuf.FieldNu
 //
 //go:noinline
 func (m *MapSint32Sint32) PicoDecode(dec *picobuf.Decoder, field picobuf.FieldNumber) {
-	var key int32
-	var val int32
 	dec.RepeatedMessage(field, func(c *picobuf.Decoder) {
+		var key int32
+		var val int32
 		if *m == nil {
 			*m = map[int32]int32{}
 		}
@@ -2697,9 +2697,9 @@ func (m *MapSint32Sint64) PicoEncode(enc *picobuf.Encoder, field picobuf.FieldNu
 //
 //go:noinline
 func (m *MapSint32Sint64) PicoDecode(dec *picobuf.Decoder, field picobuf.FieldNumber) {
-	var key int32
-	var val int64
 	dec.RepeatedMessage(field, func(c *picobuf.Decoder) {
+		var key int32
+		var val int64
 		if *m == nil {
 			*m = map[int32]int64{}
 		}
@@ -2730,9 +2730,9 @@ func (m *MapSint32Fixed32) PicoEncode(enc *picobuf.Encoder, field picobuf.FieldN
 //
 //go:noinline
 func (m *MapSint32Fixed32) PicoDecode(dec *picobuf.Decoder, field picobuf.FieldNumber) {
-	var key int32
-	var val uint32
 	dec.RepeatedMessage(field, func(c *picobuf.Decoder) {
+		var key int32
+		var val uint32
 		if *m == nil {
 			*m = map[int32]uint32{}
 		}
@@ -2763,9 +2763,9 @@ func (m *MapSint32Fixed64) PicoEncode(enc *picobuf.Encoder, field picobuf.FieldN
 //
 //go:noinline
 func (m *MapSint32Fixed64) PicoDecode(dec *picobuf.Decoder, field picobuf.FieldNumber) {
-	var key int32
-	var val uint64
 	dec.RepeatedMessage(field, func(c *picobuf.Decoder) {
+		var key int32
+		var val uint64
 		if *m == nil {
 			*m = map[int32]uint64{}
 		}
@@ -2796,9 +2796,9 @@ func (m *MapSint32Sfixed32) PicoEncode(enc *picobuf.Encoder, field picobuf.Field
 //
 //go:noinline
 func (m *MapSint32Sfixed32) PicoDecode(dec *picobuf.Decoder, field picobuf.FieldNumber) {
-	var key int32
-	var val int32
 	dec.RepeatedMessage(field, func(c *picobuf.Decoder) {
+		var key int32
+		var val int32
 		if *m == nil {
 			*m = map[int32]int32{}
 		}
@@ -2829,9 +2829,9 @@ func (m *MapSint32Sfixed64) PicoEncode(enc *picobuf.Encoder, field picobuf.Field
 //
 //go:noinline
 func (m *MapSint32Sfixed64) PicoDecode(dec *picobuf.Decoder, field picobuf.FieldNumber) {
-	var key int32
-	var val int64
 	dec.RepeatedMessage(field, func(c *picobuf.Decoder) {
+		var key int32
+		var val int64
 		if *m == nil {
 			*m = map[int32]int64{}
 		}
@@ -2862,9 +2862,9 @@ func (m *MapSint32Float) PicoEncode(enc *picobuf.Encoder, field picobuf.FieldNum
 //
 //go:noinline
 func (m *MapSint32Float) PicoDecode(dec *picobuf.Decoder, field picobuf.FieldNumber) {
-	var key int32
-	var val float32
 	dec.RepeatedMessage(field, func(c *picobuf.Decoder) {
+		var key int32
+		var val float32
 		if *m == nil {
 			*m = map[int32]float32{}
 		}
@@ -2895,9 +2895,9 @@ func (m *MapSint32Double) PicoEncode(enc *picobuf.Encoder, field picobuf.FieldNu
 //
 //go:noinline
 func (m *MapSint32Double) PicoDecode(dec *picobuf.Decoder, field picobuf.FieldNumber) {
-	var key int32
-	var val float64
 	dec.RepeatedMessage(field, func(c *picobuf.Decoder) {
+		var key int32
+		var val float64
 		if *m == nil {
 			*m = map[int32]float64{}
 		}
@@ -2928,9 +2928,9 @@ func (m *MapSint32String) PicoEncode(enc *picobuf.Encoder, field picobuf.FieldNu
 //
 //go:noinline
 func (m *MapSint32String) PicoDecode(dec *picobuf.Decoder, field picobuf.FieldNumber) {
-	var key int32
-	var val string
 	dec.RepeatedMessage(field, func(c *picobuf.Decoder) {
+		var key int32
+		var val string
 		if *m == nil {
 			*m = map[int32]string{}
 		}
@@ -2961,9 +2961,9 @@ func (m *MapSint32Bytes) PicoEncode(enc *picobuf.Encoder, field picobuf.FieldNum
 //
 //go:noinline
 func (m *MapSint32Bytes) PicoDecode(dec *picobuf.Decoder, field picobuf.FieldNumber) {
-	var key int32
-	var val []byte
 	dec.RepeatedMessage(field, func(c *picobuf.Decoder) {
+		var key int32
+		var val []byte
 		if *m == nil {
 			*m = map[int32][]byte{}
 		}
@@ -2994,9 +2994,9 @@ func (m *MapSint64Bool) PicoEncode(enc *picobuf.Encoder, field picobuf.FieldNumb
 //
 //go:noinline
 func (m *MapSint64Bool) PicoDecode(dec *picobuf.Decoder, field picobuf.FieldNumber) {
-	var key int64
-	var val bool
 	dec.RepeatedMessage(field, func(c *picobuf.Decoder) {
+		var key int64
+		var val bool
 		if *m == nil {
 			*m = map[int64]bool{}
 		}
@@ -3027,9 +3027,9 @@ func (m *MapSint64Int32) PicoEncode(enc *picobuf.Encoder, field picobuf.FieldNum
 //
 //go:noinline
 func (m *MapSint64Int32) PicoDecode(dec *picobuf.Decoder, field picobuf.FieldNumber) {
-	var key int64
-	var val int32
 	dec.RepeatedMessage(field, func(c *picobuf.Decoder) {
+		var key int64
+		var val int32
 		if *m == nil {
 			*m = map[int64]int32{}
 		}
@@ -3060,9 +3060,9 @@ func (m *MapSint64Int64) PicoEncode(enc *picobuf.Encoder, field picobuf.FieldNum
 //
 //go:noinline
 func (m *MapSint64Int64) PicoDecode(dec *picobuf.Decoder, field picobuf.FieldNumber) {
-	var key int64
-	var val int64
 	dec.RepeatedMessage(field, func(c *picobuf.Decoder) {
+		var key int64
+		var val int64
 		if *m == nil {
 			*m = map[int64]int64{}
 		}
@@ -3093,9 +3093,9 @@ func (m *MapSint64Uint32) PicoEncode(enc *picobuf.Encoder, field picobuf.FieldNu
 //
 //go:noinline
 func (m *MapSint64Uint32) PicoDecode(dec *picobuf.Decoder, field picobuf.FieldNumber) {
-	var key int64
-	var val uint32
 	dec.RepeatedMessage(field, func(c *picobuf.Decoder) {
+		var key int64
+		var val uint32
 		if *m == nil {
 			*m = map[int64]uint32{}
 		}
@@ -3126,9 +3126,9 @@ func (m *MapSint64Uint64) PicoEncode(enc *picobuf.Encoder, field picobuf.FieldNu
 //
 //go:noinline
 func (m *MapSint64Uint64) PicoDecode(dec *picobuf.Decoder, field picobuf.FieldNumber) {
-	var key int64
-	var val uint64
 	dec.RepeatedMessage(field, func(c *picobuf.Decoder) {
+		var key int64
+		var val uint64
 		if *m == nil {
 			*m = map[int64]uint64{}
 		}
@@ -3159,9 +3159,9 @@ func (m *MapSint64Sint32) PicoEncode(enc *picobuf.Encoder, field picobuf.FieldNu
 //
 //go:noinline
 func (m *MapSint64Sint32) PicoDecode(dec *picobuf.Decoder, field picobuf.FieldNumber) {
-	var key int64
-	var val int32
 	dec.RepeatedMessage(field, func(c *picobuf.Decoder) {
+		var key int64
+		var val int32
 		if *m == nil {
 			*m = map[int64]int32{}
 		}
@@ -3192,9 +3192,9 @@ func (m *MapSint64Sint64) PicoEncode(enc *picobuf.Encoder, field picobuf.FieldNu
 //
 //go:noinline
 func (m *MapSint64Sint64) PicoDecode(dec *picobuf.Decoder, field picobuf.FieldNumber) {
-	var key int64
-	var val int64
 	dec.RepeatedMessage(field, func(c *picobuf.Decoder) {
+		var key int64
+		var val int64
 		if *m == nil {
 			*m = map[int64]int64{}
 		}
@@ -3225,9 +3225,9 @@ func (m *MapSint64Fixed32) PicoEncode(enc *picobuf.Encoder, field picobuf.FieldN
 //
 //go:noinline
 func (m *MapSint64Fixed32) PicoDecode(dec *picobuf.Decoder, field picobuf.FieldNumber) {
-	var key int64
-	var val uint32
 	dec.RepeatedMessage(field, func(c *picobuf.Decoder) {
+		var key int64
+		var val uint32
 		if *m == nil {
 			*m = map[int64]uint32{}
 		}
@@ -3258,9 +3258,9 @@ func (m *MapSint64Fixed64) PicoEncode(enc *picobuf.Encoder, field picobuf.FieldN
 //
 //go:noinline
 func (m *MapSint64Fixed64) PicoDecode(dec *picobuf.Decoder, field picobuf.FieldNumber) {
-	var key int64
-	var val uint64
 	dec.RepeatedMessage(field, func(c *picobuf.Decoder) {
+		var key int64
+		var val uint64
 		if *m == nil {
 			*m = map[int64]uint64{}
 		}
@@ -3291,9 +3291,9 @@ func (m *MapSint64Sfixed32) PicoEncode(enc *picobuf.Encoder, field picobuf.Field
 //
 //go:noinline
 func (m *MapSint64Sfixed32) PicoDecode(dec *picobuf.Decoder, field picobuf.FieldNumber) {
-	var key int64
-	var val int32
 	dec.RepeatedMessage(field, func(c *picobuf.Decoder) {
+		var key int64
+		var val int32
 		if *m == nil {
 			*m = map[int64]int32{}
 		}
@@ -3324,9 +3324,9 @@ func (m *MapSint64Sfixed64) PicoEncode(enc *picobuf.Encoder, field picobuf.Field
 //
 //go:noinline
 func (m *MapSint64Sfixed64) PicoDecode(dec *picobuf.Decoder, field picobuf.FieldNumber) {
-	var key int64
-	var val int64
 	dec.RepeatedMessage(field, func(c *picobuf.Decoder) {
+		var key int64
+		var val int64
 		if *m == nil {
 			*m = map[int64]int64{}
 		}
@@ -3357,9 +3357,9 @@ func (m *MapSint64Float) PicoEncode(enc *picobuf.Encoder, field picobuf.FieldNum
 //
 //go:noinline
 func (m *MapSint64Float) PicoDecode(dec *picobuf.Decoder, field picobuf.FieldNumber) {
-	var key int64
-	var val float32
 	dec.RepeatedMessage(field, func(c *picobuf.Decoder) {
+		var key int64
+		var val float32
 		if *m == nil {
 			*m = map[int64]float32{}
 		}
@@ -3390,9 +3390,9 @@ func (m *MapSint64Double) PicoEncode(enc *picobuf.Encoder, field picobuf.FieldNu
 //
 //go:noinline
 func (m *MapSint64Double) PicoDecode(dec *picobuf.Decoder, field picobuf.FieldNumber) {
-	var key int64
-	var val float64
 	dec.RepeatedMessage(field, func(c *picobuf.Decoder) {
+		var key int64
+		var val float64
 		if *m == nil {
 			*m = map[int64]float64{}
 		}
@@ -3423,9 +3423,9 @@ func (m *MapSint64String) PicoEncode(enc *picobuf.Encoder, field picobuf.FieldNu
 //
 //go:noinline
 func (m *MapSint64String) PicoDecode(dec *picobuf.Decoder, field picobuf.FieldNumber) {
-	var key int64
-	var val string
 	dec.RepeatedMessage(field, func(c *picobuf.Decoder) {
+		var key int64
+		var val string
 		if *m == nil {
 			*m = map[int64]string{}
 		}
@@ -3456,9 +3456,9 @@ func (m *MapSint64Bytes) PicoEncode(enc *picobuf.Encoder, field picobuf.FieldNum
 //
 //go:noinline
 func (m *MapSint64Bytes) PicoDecode(dec *picobuf.Decoder, field picobuf.FieldNumber) {
-	var key int64
-	var val []byte
 	dec.RepeatedMessage(field, func(c *picobuf.Decoder) {
+		var key int64
+		var val []byte
 		if *m == nil {
 			*m = map[int64][]byte{}
 		}
@@ -3489,9 +3489,9 @@ func (m *MapFixed32Bool) PicoEncode(enc *picobuf.Encoder, field picobuf.FieldNum
 //
 //go:noinline
 func (m *MapFixed32Bool) PicoDecode(dec *picobuf.Decoder, field picobuf.FieldNumber) {
-	var key uint32
-	var val bool
 	dec.RepeatedMessage(field, func(c *picobuf.Decoder) {
+		var key uint32
+		var val bool
 		if *m == nil {
 			*m = map[uint32]bool{}
 		}
@@ -3522,9 +3522,9 @@ func (m *MapFixed32Int32) PicoEncode(enc *picobuf.Encoder, field picobuf.FieldNu
 //
 //go:noinline
 func (m *MapFixed32Int32) PicoDecode(dec *picobuf.Decoder, field picobuf.FieldNumber) {
-	var key uint32
-	var val int32
 	dec.RepeatedMessage(field, func(c *picobuf.Decoder) {
+		var key uint32
+		var val int32
 		if *m == nil {
 			*m = map[uint32]int32{}
 		}
@@ -3555,9 +3555,9 @@ func (m *MapFixed32Int64) PicoEncode(enc *picobuf.Encoder, field picobuf.FieldNu
 //
 //go:noinline
 func (m *MapFixed32Int64) PicoDecode(dec *picobuf.Decoder, field picobuf.FieldNumber) {
-	var key uint32
-	var val int64
 	dec.RepeatedMessage(field, func(c *picobuf.Decoder) {
+		var key uint32
+		var val int64
 		if *m == nil {
 			*m = map[uint32]int64{}
 		}
@@ -3588,9 +3588,9 @@ func (m *MapFixed32Uint32) PicoEncode(enc *picobuf.Encoder, field picobuf.FieldN
 //
 //go:noinline
 func (m *MapFixed32Uint32) PicoDecode(dec *picobuf.Decoder, field picobuf.FieldNumber) {
-	var key uint32
-	var val uint32
 	dec.RepeatedMessage(field, func(c *picobuf.Decoder) {
+		var key uint32
+		var val uint32
 		if *m == nil {
 			*m = map[uint32]uint32{}
 		}
@@ -3621,9 +3621,9 @@ func (m *MapFixed32Uint64) PicoEncode(enc *picobuf.Encoder, field picobuf.FieldN
 //
 //go:noinline
 func (m *MapFixed32Uint64) PicoDecode(dec *picobuf.Decoder, field picobuf.FieldNumber) {
-	var key uint32
-	var val uint64
 	dec.RepeatedMessage(field, func(c *picobuf.Decoder) {
+		var key uint32
+		var val uint64
 		if *m == nil {
 			*m = map[uint32]uint64{}
 		}
@@ -3654,9 +3654,9 @@ func (m *MapFixed32Sint32) PicoEncode(enc *picobuf.Encoder, field picobuf.FieldN
 //
 //go:noinline
 func (m *MapFixed32Sint32) PicoDecode(dec *picobuf.Decoder, field picobuf.FieldNumber) {
-	var key uint32
-	var val int32
 	dec.RepeatedMessage(field, func(c *picobuf.Decoder) {
+		var key uint32
+		var val int32
 		if *m == nil {
 			*m = map[uint32]int32{}
 		}
@@ -3687,9 +3687,9 @@ func (m *MapFixed32Sint64) PicoEncode(enc *picobuf.Encoder, field picobuf.FieldN
 //
 //go:noinline
 func (m *MapFixed32Sint64) PicoDecode(dec *picobuf.Decoder, field picobuf.FieldNumber) {
-	var key uint32
-	var val int64
 	dec.RepeatedMessage(field, func(c *picobuf.Decoder) {
+		var key uint32
+		var val int64
 		if *m == nil {
 			*m = map[uint32]int64{}
 		}
@@ -3720,9 +3720,9 @@ func (m *MapFixed32Fixed32) PicoEncode(enc *picobuf.Encoder, field picobuf.Field
 //
 //go:noinline
 func (m *MapFixed32Fixed32) PicoDecode(dec *picobuf.Decoder, field picobuf.FieldNumber) {
-	var key uint32
-	var val uint32
 	dec.RepeatedMessage(field, func(c *picobuf.Decoder) {
+		var key uint32
+		var val uint32
 		if *m == nil {
 			*m = map[uint32]uint32{}
 		}
@@ -3753,9 +3753,9 @@ func (m *MapFixed32Fixed64) PicoEncode(enc *picobuf.Encoder, field picobuf.Field
 //
 //go:noinline
 func (m *MapFixed32Fixed64) PicoDecode(dec *picobuf.Decoder, field picobuf.FieldNumber) {
-	var key uint32
-	var val uint64
 	dec.RepeatedMessage(field, func(c *picobuf.Decoder) {
+		var key uint32
+		var val uint64
 		if *m == nil {
 			*m = map[uint32]uint64{}
 		}
@@ -3786,9 +3786,9 @@ func (m *MapFixed32Sfixed32) PicoEncode(enc *picobuf.Encoder, field picobuf.Fiel
 //
 //go:noinline
 func (m *MapFixed32Sfixed32) PicoDecode(dec *picobuf.Decoder, field picobuf.FieldNumber) {
-	var key uint32
-	var val int32
 	dec.RepeatedMessage(field, func(c *picobuf.Decoder) {
+		var key uint32
+		var val int32
 		if *m == nil {
 			*m = map[uint32]int32{}
 		}
@@ -3819,9 +3819,9 @@ func (m *MapFixed32Sfixed64) PicoEncode(enc *picobuf.Encoder, field picobuf.Fiel
 //
 //go:noinline
 func (m *MapFixed32Sfixed64) PicoDecode(dec *picobuf.Decoder, field picobuf.FieldNumber) {
-	var key uint32
-	var val int64
 	dec.RepeatedMessage(field, func(c *picobuf.Decoder) {
+		var key uint32
+		var val int64
 		if *m == nil {
 			*m = map[uint32]int64{}
 		}
@@ -3852,9 +3852,9 @@ func (m *MapFixed32Float) PicoEncode(enc *picobuf.Encoder, field picobuf.FieldNu
 //
 //go:noinline
 func (m *MapFixed32Float) PicoDecode(dec *picobuf.Decoder, field picobuf.FieldNumber) {
-	var key uint32
-	var val float32
 	dec.RepeatedMessage(field, func(c *picobuf.Decoder) {
+		var key uint32
+		var val float32
 		if *m == nil {
 			*m = map[uint32]float32{}
 		}
@@ -3885,9 +3885,9 @@ func (m *MapFixed32Double) PicoEncode(enc *picobuf.Encoder, field picobuf.FieldN
 //
 //go:noinline
 func (m *MapFixed32Double) PicoDecode(dec *picobuf.Decoder, field picobuf.FieldNumber) {
-	var key uint32
-	var val float64
 	dec.RepeatedMessage(field, func(c *picobuf.Decoder) {
+		var key uint32
+		var val float64
 		if *m == nil {
 			*m = map[uint32]float64{}
 		}
@@ -3918,9 +3918,9 @@ func (m *MapFixed32String) PicoEncode(enc *picobuf.Encoder, field picobuf.FieldN
 //
 //go:noinline
 func (m *MapFixed32String) PicoDecode(dec *picobuf.Decoder, field picobuf.FieldNumber) {
-	var key uint32
-	var val string
 	dec.RepeatedMessage(field, func(c *picobuf.Decoder) {
+		var key uint32
+		var val string
 		if *m == nil {
 			*m = map[uint32]string{}
 		}
@@ -3951,9 +3951,9 @@ func (m *MapFixed32Bytes) PicoEncode(enc *picobuf.Encoder, field picobuf.FieldNu
 //
 //go:noinline
 func (m *MapFixed32Bytes) PicoDecode(dec *picobuf.Decoder, field picobuf.FieldNumber) {
-	var key uint32
-	var val []byte
 	dec.RepeatedMessage(field, func(c *picobuf.Decoder) {
+		var key uint32
+		var val []byte
 		if *m == nil {
 			*m = map[uint32][]byte{}
 		}
@@ -3984,9 +3984,9 @@ func (m *MapFixed64Bool) PicoEncode(enc *picobuf.Encoder, field picobuf.FieldNum
 //
 //go:noinline
 func (m *MapFixed64Bool) PicoDecode(dec *picobuf.Decoder, field picobuf.FieldNumber) {
-	var key uint64
-	var val bool
 	dec.RepeatedMessage(field, func(c *picobuf.Decoder) {
+		var key uint64
+		var val bool
 		if *m == nil {
 			*m = map[uint64]bool{}
 		}
@@ -4017,9 +4017,9 @@ func (m *MapFixed64Int32) PicoEncode(enc *picobuf.Encoder, field picobuf.FieldNu
 //
 //go:noinline
 func (m *MapFixed64Int32) PicoDecode(dec *picobuf.Decoder, field picobuf.FieldNumber) {
-	var key uint64
-	var val int32
 	dec.RepeatedMessage(field, func(c *picobuf.Decoder) {
+		var key uint64
+		var val int32
 		if *m == nil {
 			*m = map[uint64]int32{}
 		}
@@ -4050,9 +4050,9 @@ func (m *MapFixed64Int64) PicoEncode(enc *picobuf.Encoder, field picobuf.FieldNu
 //
 //go:noinline
 func (m *MapFixed64Int64) PicoDecode(dec *picobuf.Decoder, field picobuf.FieldNumber) {
-	var key uint64
-	var val int64
 	dec.RepeatedMessage(field, func(c *picobuf.Decoder) {
+		var key uint64
+		var val int64
 		if *m == nil {
 			*m = map[uint64]int64{}
 		}
@@ -4083,9 +4083,9 @@ func (m *MapFixed64Uint32) PicoEncode(enc *picobuf.Encoder, field picobuf.FieldN
 //
 //go:noinline
 func (m *MapFixed64Uint32) PicoDecode(dec *picobuf.Decoder, field picobuf.FieldNumber) {
-	var key uint64
-	var val uint32
 	dec.RepeatedMessage(field, func(c *picobuf.Decoder) {
+		var key uint64
+		var val uint32
 		if *m == nil {
 			*m = map[uint64]uint32{}
 		}
@@ -4116,9 +4116,9 @@ func (m *MapFixed64Uint64) PicoEncode(enc *picobuf.Encoder, field picobuf.FieldN
 //
 //go:noinline
 func (m *MapFixed64Uint64) PicoDecode(dec *picobuf.Decoder, field picobuf.FieldNumber) {
-	var key uint64
-	var val uint64
 	dec.RepeatedMessage(field, func(c *picobuf.Decoder) {
+		var key uint64
+		var val uint64
 		if *m == nil {
 			*m = map[uint64]uint64{}
 		}
@@ -4149,9 +4149,9 @@ func (m *MapFixed64Sint32) PicoEncode(enc *picobuf.Encoder, field picobuf.FieldN
 //
 //go:noinline
 func (m *MapFixed64Sint32) PicoDecode(dec *picobuf.Decoder, field picobuf.FieldNumber) {
-	var key uint64
-	var val int32
 	dec.RepeatedMessage(field, func(c *picobuf.Decoder) {
+		var key uint64
+		var val int32
 		if *m == nil {
 			*m = map[uint64]int32{}
 		}
@@ -4182,9 +4182,9 @@ func (m *MapFixed64Sint64) PicoEncode(enc *picobuf.Encoder, field picobuf.FieldN
 //
 //go:noinline
 func (m *MapFixed64Sint64) PicoDecode(dec *picobuf.Decoder, field picobuf.FieldNumber) {
-	var key uint64
-	var val int64
 	dec.RepeatedMessage(field, func(c *picobuf.Decoder) {
+		var key uint64
+		var val int64
 		if *m == nil {
 			*m = map[uint64]int64{}
 		}
@@ -4215,9 +4215,9 @@ func (m *MapFixed64Fixed32) PicoEncode(enc *picobuf.Encoder, field picobuf.Field
 //
 //go:noinline
 func (m *MapFixed64Fixed32) PicoDecode(dec *picobuf.Decoder, field picobuf.FieldNumber) {
-	var key uint64
-	var val uint32
 	dec.RepeatedMessage(field, func(c *picobuf.Decoder) {
+		var key uint64
+		var val uint32
 		if *m == nil {
 			*m = map[uint64]uint32{}
 		}
@@ -4248,9 +4248,9 @@ func (m *MapFixed64Fixed64) PicoEncode(enc *picobuf.Encoder, field picobuf.Field
 //
 //go:noinline
 func (m *MapFixed64Fixed64) PicoDecode(dec *picobuf.Decoder, field picobuf.FieldNumber) {
-	var key uint64
-	var val uint64
 	dec.RepeatedMessage(field, func(c *picobuf.Decoder) {
+		var key uint64
+		var val uint64
 		if *m == nil {
 			*m = map[uint64]uint64{}
 		}
@@ -4281,9 +4281,9 @@ func (m *MapFixed64Sfixed32) PicoEncode(enc *picobuf.Encoder, field picobuf.Fiel
 //
 //go:noinline
 func (m *MapFixed64Sfixed32) PicoDecode(dec *picobuf.Decoder, field picobuf.FieldNumber) {
-	var key uint64
-	var val int32
 	dec.RepeatedMessage(field, func(c *picobuf.Decoder) {
+		var key uint64
+		var val int32
 		if *m == nil {
 			*m = map[uint64]int32{}
 		}
@@ -4314,9 +4314,9 @@ func (m *MapFixed64Sfixed64) PicoEncode(enc *picobuf.Encoder, field picobuf.Fiel
 //
 //go:noinline
 func (m *MapFixed64Sfixed64) PicoDecode(dec *picobuf.Decoder, field picobuf.FieldNumber) {
-	var key uint64
-	var val int64
 	dec.RepeatedMessage(field, func(c *picobuf.Decoder) {
+		var key uint64
+		var val int64
 		if *m == nil {
 			*m = map[uint64]int64{}
 		}
@@ -4347,9 +4347,9 @@ func (m *MapFixed64Float) PicoEncode(enc *picobuf.Encoder, field picobuf.FieldNu
 //
 //go:noinline
 func (m *MapFixed64Float) PicoDecode(dec *picobuf.Decoder, field picobuf.FieldNumber) {
-	var key uint64
-	var val float32
 	dec.RepeatedMessage(field, func(c *picobuf.Decoder) {
+		var key uint64
+		var val float32
 		if *m == nil {
 			*m = map[uint64]float32{}
 		}
@@ -4380,9 +4380,9 @@ func (m *MapFixed64Double) PicoEncode(enc *picobuf.Encoder, field picobuf.FieldN
 //
 //go:noinline
 func (m *MapFixed64Double) PicoDecode(dec *picobuf.Decoder, field picobuf.FieldNumber) {
-	var key uint64
-	var val float64
 	dec.RepeatedMessage(field, func(c *picobuf.Decoder) {
+		var key uint64
+		var val float64
 		if *m == nil {
 			*m = map[uint64]float64{}
 		}
@@ -4413,9 +4413,9 @@ func (m *MapFixed64String) PicoEncode(enc *picobuf.Encoder, field picobuf.FieldN
 //
 //go:noinline
 func (m *MapFixed64String) PicoDecode(dec *picobuf.Decoder, field picobuf.FieldNumber) {
-	var key uint64
-	var val string
 	dec.RepeatedMessage(field, func(c *picobuf.Decoder) {
+		var key uint64
+		var val string
 		if *m == nil {
 			*m = map[uint64]string{}
 		}
@@ -4446,9 +4446,9 @@ func (m *MapFixed64Bytes) PicoEncode(enc *picobuf.Encoder, field picobuf.FieldNu
 //
 //go:noinline
 func (m *MapFixed64Bytes) PicoDecode(dec *picobuf.Decoder, field picobuf.FieldNumber) {
-	var key uint64
-	var val []byte
 	dec.RepeatedMessage(field, func(c *picobuf.Decoder) {
+		var key uint64
+		var val []byte
 		if *m == nil {
 			*m = map[uint64][]byte{}
 		}
@@ -4479,9 +4479,9 @@ func (m *MapSfixed32Bool) PicoEncode(enc *picobuf.Encoder, field picobuf.FieldNu
 //
 //go:noinline
 func (m *MapSfixed32Bool) PicoDecode(dec *picobuf.Decoder, field picobuf.FieldNumber) {
-	var key int32
-	var val bool
 	dec.RepeatedMessage(field, func(c *picobuf.Decoder) {
+		var key int32
+		var val bool
 		if *m == nil {
 			*m = map[int32]bool{}
 		}
@@ -4512,9 +4512,9 @@ func (m *MapSfixed32Int32) PicoEncode(enc *picobuf.Encoder, field picobuf.FieldN
 //
 //go:noinline
 func (m *MapSfixed32Int32) PicoDecode(dec *picobuf.Decoder, field picobuf.FieldNumber) {
-	var key int32
-	var val int32
 	dec.RepeatedMessage(field, func(c *picobuf.Decoder) {
+		var key int32
+		var val int32
 		if *m == nil {
 			*m = map[int32]int32{}
 		}
@@ -4545,9 +4545,9 @@ func (m *MapSfixed32Int64) PicoEncode(enc *picobuf.Encoder, field picobuf.FieldN
 //
 //go:noinline
 func (m *MapSfixed32Int64) PicoDecode(dec *picobuf.Decoder, field picobuf.FieldNumber) {
-	var key int32
-	var val int64
 	dec.RepeatedMessage(field, func(c *picobuf.Decoder) {
+		var key int32
+		var val int64
 		if *m == nil {
 			*m = map[int32]int64{}
 		}
@@ -4578,9 +4578,9 @@ func (m *MapSfixed32Uint32) PicoEncode(enc *picobuf.Encoder, field picobuf.Field
 //
 //go:noinline
 func (m *MapSfixed32Uint32) PicoDecode(dec *picobuf.Decoder, field picobuf.FieldNumber) {
-	var key int32
-	var val uint32
 	dec.RepeatedMessage(field, func(c *picobuf.Decoder) {
+		var key int32
+		var val uint32
 		if *m == nil {
 			*m = map[int32]uint32{}
 		}
@@ -4611,9 +4611,9 @@ func (m *MapSfixed32Uint64) PicoEncode(enc *picobuf.Encoder, field picobuf.Field
 //
 //go:noinline
 func (m *MapSfixed32Uint64) PicoDecode(dec *picobuf.Decoder, field picobuf.FieldNumber) {
-	var key int32
-	var val uint64
 	dec.RepeatedMessage(field, func(c *picobuf.Decoder) {
+		var key int32
+		var val uint64
 		if *m == nil {
 			*m = map[int32]uint64{}
 		}
@@ -4644,9 +4644,9 @@ func (m *MapSfixed32Sint32) PicoEncode(enc *picobuf.Encoder, field picobuf.Field
 //
 //go:noinline
 func (m *MapSfixed32Sint32) PicoDecode(dec *picobuf.Decoder, field picobuf.FieldNumber) {
-	var key int32
-	var val int32
 	dec.RepeatedMessage(field, func(c *picobuf.Decoder) {
+		var key int32
+		var val int32
 		if *m == nil {
 			*m = map[int32]int32{}
 		}
@@ -4677,9 +4677,9 @@ func (m *MapSfixed32Sint64) PicoEncode(enc *picobuf.Encoder, field picobuf.Field
 //
 //go:noinline
 func (m *MapSfixed32Sint64) PicoDecode(dec *picobuf.Decoder, field picobuf.FieldNumber) {
-	var key int32
-	var val int64
 	dec.RepeatedMessage(field, func(c *picobuf.Decoder) {
+		var key int32
+		var val int64
 		if *m == nil {
 			*m = map[int32]int64{}
 		}
@@ -4710,9 +4710,9 @@ func (m *MapSfixed32Fixed32) PicoEncode(enc *picobuf.Encoder, field picobuf.Fiel
 //
 //go:noinline
 func (m *MapSfixed32Fixed32) PicoDecode(dec *picobuf.Decoder, field picobuf.FieldNumber) {
-	var key int32
-	var val uint32
 	dec.RepeatedMessage(field, func(c *picobuf.Decoder) {
+		var key int32
+		var val uint32
 		if *m == nil {
 			*m = map[int32]uint32{}
 		}
@@ -4743,9 +4743,9 @@ func (m *MapSfixed32Fixed64) PicoEncode(enc *picobuf.Encoder, field picobuf.Fiel
 //
 //go:noinline
 func (m *MapSfixed32Fixed64) PicoDecode(dec *picobuf.Decoder, field picobuf.FieldNumber) {
-	var key int32
-	var val uint64
 	dec.RepeatedMessage(field, func(c *picobuf.Decoder) {
+		var key int32
+		var val uint64
 		if *m == nil {
 			*m = map[int32]uint64{}
 		}
@@ -4776,9 +4776,9 @@ func (m *MapSfixed32Sfixed32) PicoEncode(enc *picobuf.Encoder, field picobuf.Fie
 //
 //go:noinline
 func (m *MapSfixed32Sfixed32) PicoDecode(dec *picobuf.Decoder, field picobuf.FieldNumber) {
-	var key int32
-	var val int32
 	dec.RepeatedMessage(field, func(c *picobuf.Decoder) {
+		var key int32
+		var val int32
 		if *m == nil {
 			*m = map[int32]int32{}
 		}
@@ -4809,9 +4809,9 @@ func (m *MapSfixed32Sfixed64) PicoEncode(enc *picobuf.Encoder, field picobuf.Fie
 //
 //go:noinline
 func (m *MapSfixed32Sfixed64) PicoDecode(dec *picobuf.Decoder, field picobuf.FieldNumber) {
-	var key int32
-	var val int64
 	dec.RepeatedMessage(field, func(c *picobuf.Decoder) {
+		var key int32
+		var val int64
 		if *m == nil {
 			*m = map[int32]int64{}
 		}
@@ -4842,9 +4842,9 @@ func (m *MapSfixed32Float) PicoEncode(enc *picobuf.Encoder, field picobuf.FieldN
 //
 //go:noinline
 func (m *MapSfixed32Float) PicoDecode(dec *picobuf.Decoder, field picobuf.FieldNumber) {
-	var key int32
-	var val float32
 	dec.RepeatedMessage(field, func(c *picobuf.Decoder) {
+		var key int32
+		var val float32
 		if *m == nil {
 			*m = map[int32]float32{}
 		}
@@ -4875,9 +4875,9 @@ func (m *MapSfixed32Double) PicoEncode(enc *picobuf.Encoder, field picobuf.Field
 //
 //go:noinline
 func (m *MapSfixed32Double) PicoDecode(dec *picobuf.Decoder, field picobuf.FieldNumber) {
-	var key int32
-	var val float64
 	dec.RepeatedMessage(field, func(c *picobuf.Decoder) {
+		var key int32
+		var val float64
 		if *m == nil {
 			*m = map[int32]float64{}
 		}
@@ -4908,9 +4908,9 @@ func (m *MapSfixed32String) PicoEncode(enc *picobuf.Encoder, field picobuf.Field
 //
 //go:noinline
 func (m *MapSfixed32String) PicoDecode(dec *picobuf.Decoder, field picobuf.FieldNumber) {
-	var key int32
-	var val string
 	dec.RepeatedMessage(field, func(c *picobuf.Decoder) {
+		var key int32
+		var val string
 		if *m == nil {
 			*m = map[int32]string{}
 		}
@@ -4941,9 +4941,9 @@ func (m *MapSfixed32Bytes) PicoEncode(enc *picobuf.Encoder, field picobuf.FieldN
 //
 //go:noinline
 func (m *MapSfixed32Bytes) PicoDecode(dec *picobuf.Decoder, field picobuf.FieldNumber) {
-	var key int32
-	var val []byte
 	dec.RepeatedMessage(field, func(c *picobuf.Decoder) {
+		var key int32
+		var val []byte
 		if *m == nil {
 			*m = map[int32][]byte{}
 		}
@@ -4974,9 +4974,9 @@ func (m *MapSfixed64Bool) PicoEncode(enc *picobuf.Encoder, field picobuf.FieldNu
 //
 //go:noinline
 func (m *MapSfixed64Bool) PicoDecode(dec *picobuf.Decoder, field picobuf.FieldNumber) {
-	var key int64
-	var val bool
 	dec.RepeatedMessage(field, func(c *picobuf.Decoder) {
+		var key int64
+		var val bool
 		if *m == nil {
 			*m = map[int64]bool{}
 		}
@@ -5007,9 +5007,9 @@ func (m *MapSfixed64Int32) PicoEncode(enc *picobuf.Encoder, field picobuf.FieldN
 //
 //go:noinline
 func (m *MapSfixed64Int32) PicoDecode(dec *picobuf.Decoder, field picobuf.FieldNumber) {
-	var key int64
-	var val int32
 	dec.RepeatedMessage(field, func(c *picobuf.Decoder) {
+		var key int64
+		var val int32
 		if *m == nil {
 			*m = map[int64]int32{}
 		}
@@ -5040,9 +5040,9 @@ func (m *MapSfixed64Int64) PicoEncode(enc *picobuf.Encoder, field picobuf.FieldN
 //
 //go:noinline
 func (m *MapSfixed64Int64) PicoDecode(dec *picobuf.Decoder, field picobuf.FieldNumber) {
-	var key int64
-	var val int64
 	dec.RepeatedMessage(field, func(c *picobuf.Decoder) {
+		var key int64
+		var val int64
 		if *m == nil {
 			*m = map[int64]int64{}
 		}
@@ -5073,9 +5073,9 @@ func (m *MapSfixed64Uint32) PicoEncode(enc *picobuf.Encoder, field picobuf.Field
 //
 //go:noinline
 func (m *MapSfixed64Uint32) PicoDecode(dec *picobuf.Decoder, field picobuf.FieldNumber) {
-	var key int64
-	var val uint32
 	dec.RepeatedMessage(field, func(c *picobuf.Decoder) {
+		var key int64
+		var val uint32
 		if *m == nil {
 			*m = map[int64]uint32{}
 		}
@@ -5106,9 +5106,9 @@ func (m *MapSfixed64Uint64) PicoEncode(enc *picobuf.Encoder, field picobuf.Field
 //
 //go:noinline
 func (m *MapSfixed64Uint64) PicoDecode(dec *picobuf.Decoder, field picobuf.FieldNumber) {
-	var key int64
-	var val uint64
 	dec.RepeatedMessage(field, func(c *picobuf.Decoder) {
+		var key int64
+		var val uint64
 		if *m == nil {
 			*m = map[int64]uint64{}
 		}
@@ -5139,9 +5139,9 @@ func (m *MapSfixed64Sint32) PicoEncode(enc *picobuf.Encoder, field picobuf.Field
 //
 //go:noinline
 func (m *MapSfixed64Sint32) PicoDecode(dec *picobuf.Decoder, field picobuf.FieldNumber) {
-	var key int64
-	var val int32
 	dec.RepeatedMessage(field, func(c *picobuf.Decoder) {
+		var key int64
+		var val int32
 		if *m == nil {
 			*m = map[int64]int32{}
 		}
@@ -5172,9 +5172,9 @@ func (m *MapSfixed64Sint64) PicoEncode(enc *picobuf.Encoder, field picobuf.Field
 //
 //go:noinline
 func (m *MapSfixed64Sint64) PicoDecode(dec *picobuf.Decoder, field picobuf.FieldNumber) {
-	var key int64
-	var val int64
 	dec.RepeatedMessage(field, func(c *picobuf.Decoder) {
+		var key int64
+		var val int64
 		if *m == nil {
 			*m = map[int64]int64{}
 		}
@@ -5205,9 +5205,9 @@ func (m *MapSfixed64Fixed32) PicoEncode(enc *picobuf.Encoder, field picobuf.Fiel
 //
 //go:noinline
 func (m *MapSfixed64Fixed32) PicoDecode(dec *picobuf.Decoder, field picobuf.FieldNumber) {
-	var key int64
-	var val uint32
 	dec.RepeatedMessage(field, func(c *picobuf.Decoder) {
+		var key int64
+		var val uint32
 		if *m == nil {
 			*m = map[int64]uint32{}
 		}
@@ -5238,9 +5238,9 @@ func (m *MapSfixed64Fixed64) PicoEncode(enc *picobuf.Encoder, field picobuf.Fiel
 //
 //go:noinline
 func (m *MapSfixed64Fixed64) PicoDecode(dec *picobuf.Decoder, field picobuf.FieldNumber) {
-	var key int64
-	var val uint64
 	dec.RepeatedMessage(field, func(c *picobuf.Decoder) {
+		var key int64
+		var val uint64
 		if *m == nil {
 			*m = map[int64]uint64{}
 		}
@@ -5271,9 +5271,9 @@ func (m *MapSfixed64Sfixed32) PicoEncode(enc *picobuf.Encoder, field picobuf.Fie
 //
 //go:noinline
 func (m *MapSfixed64Sfixed32) PicoDecode(dec *picobuf.Decoder, field picobuf.FieldNumber) {
-	var key int64
-	var val int32
 	dec.RepeatedMessage(field, func(c *picobuf.Decoder) {
+		var key int64
+		var val int32
 		if *m == nil {
 			*m = map[int64]int32{}
 		}
@@ -5304,9 +5304,9 @@ func (m *MapSfixed64Sfixed64) PicoEncode(enc *picobuf.Encoder, field picobuf.Fie
 //
 //go:noinline
 func (m *MapSfixed64Sfixed64) PicoDecode(dec *picobuf.Decoder, field picobuf.FieldNumber) {
-	var key int64
-	var val int64
 	dec.RepeatedMessage(field, func(c *picobuf.Decoder) {
+		var key int64
+		var val int64
 		if *m == nil {
 			*m = map[int64]int64{}
 		}
@@ -5337,9 +5337,9 @@ func (m *MapSfixed64Float) PicoEncode(enc *picobuf.Encoder, field picobuf.FieldN
 //
 //go:noinline
 func (m *MapSfixed64Float) PicoDecode(dec *picobuf.Decoder, field picobuf.FieldNumber) {
-	var key int64
-	var val float32
 	dec.RepeatedMessage(field, func(c *picobuf.Decoder) {
+		var key int64
+		var val float32
 		if *m == nil {
 			*m = map[int64]float32{}
 		}
@@ -5370,9 +5370,9 @@ func (m *MapSfixed64Double) PicoEncode(enc *picobuf.Encoder, field picobuf.Field
 //
 //go:noinline
 func (m *MapSfixed64Double) PicoDecode(dec *picobuf.Decoder, field picobuf.FieldNumber) {
-	var key int64
-	var val float64
 	dec.RepeatedMessage(field, func(c *picobuf.Decoder) {
+		var key int64
+		var val float64
 		if *m == nil {
 			*m = map[int64]float64{}
 		}
@@ -5403,9 +5403,9 @@ func (m *MapSfixed64String) PicoEncode(enc *picobuf.Encoder, field picobuf.Field
 //
 //go:noinline
 func (m *MapSfixed64String) PicoDecode(dec *picobuf.Decoder, field picobuf.FieldNumber) {
-	var key int64
-	var val string
 	dec.RepeatedMessage(field, func(c *picobuf.Decoder) {
+		var key int64
+		var val string
 		if *m == nil {
 			*m = map[int64]string{}
 		}
@@ -5436,9 +5436,9 @@ func (m *MapSfixed64Bytes) PicoEncode(enc *picobuf.Encoder, field picobuf.FieldN
 //
 //go:noinline
 func (m *MapSfixed64Bytes) PicoDecode(dec *picobuf.Decoder, field picobuf.FieldNumber) {
-	var key int64
-	var val []byte
 	dec.RepeatedMessage(field, func(c *picobuf.Decoder) {
+		var key int64
+		var val []byte
 		if *m == nil {
 			*m = map[int64][]byte{}
 		}
@@ -5469,9 +5469,9 @@ func (m *MapStringBool) PicoEncode(enc *picobuf.Encoder, field picobuf.FieldNumb
 //
 //go:noinline
 func (m *MapStringBool) PicoDecode(dec *picobuf.Decoder, field picobuf.FieldNumber) {
-	var key string
-	var val bool
 	dec.RepeatedMessage(field, func(c *picobuf.Decoder) {
+		var key string
+		var val bool
 		if *m == nil {
 			*m = map[string]bool{}
 		}
@@ -5502,9 +5502,9 @@ func (m *MapStringInt32) PicoEncode(enc *picobuf.Encoder, field picobuf.FieldNum
 //
 //go:noinline
 func (m *MapStringInt32) PicoDecode(dec *picobuf.Decoder, field picobuf.FieldNumber) {
-	var key string
-	var val int32
 	dec.RepeatedMessage(field, func(c *picobuf.Decoder) {
+		var key string
+		var val int32
 		if *m == nil {
 			*m = map[string]int32{}
 		}
@@ -5535,9 +5535,9 @@ func (m *MapStringInt64) PicoEncode(enc *picobuf.Encoder, field picobuf.FieldNum
 //
 //go:noinline
 func (m *MapStringInt64) PicoDecode(dec *picobuf.Decoder, field picobuf.FieldNumber) {
-	var key string
-	var val int64
 	dec.RepeatedMessage(field, func(c *picobuf.Decoder) {
+		var key string
+		var val int64
 		if *m == nil {
 			*m = map[string]int64{}
 		}
@@ -5568,9 +5568,9 @@ func (m *MapStringUint32) PicoEncode(enc *picobuf.Encoder, field picobuf.FieldNu
 //
 //go:noinline
 func (m *MapStringUint32) PicoDecode(dec *picobuf.Decoder, field picobuf.FieldNumber) {
-	var key string
-	var val uint32
 	dec.RepeatedMessage(field, func(c *picobuf.Decoder) {
+		var key string
+		var val uint32
 		if *m == nil {
 			*m = map[string]uint32{}
 		}
@@ -5601,9 +5601,9 @@ func (m *MapStringUint64) PicoEncode(enc *picobuf.Encoder, field picobuf.FieldNu
 //
 //go:noinline
 func (m *MapStringUint64) PicoDecode(dec *picobuf.Decoder, field picobuf.FieldNumber) {
-	var key string
-	var val uint64
 	dec.RepeatedMessage(field, func(c *picobuf.Decoder) {
+		var key string
+		var val uint64
 		if *m == nil {
 			*m = map[string]uint64{}
 		}
@@ -5634,9 +5634,9 @@ func (m *MapStringSint32) PicoEncode(enc *picobuf.Encoder, field picobuf.FieldNu
 //
 //go:noinline
 func (m *MapStringSint32) PicoDecode(dec *picobuf.Decoder, field picobuf.FieldNumber) {
-	var key string
-	var val int32
 	dec.RepeatedMessage(field, func(c *picobuf.Decoder) {
+		var key string
+		var val int32
 		if *m == nil {
 			*m = map[string]int32{}
 		}
@@ -5667,9 +5667,9 @@ func (m *MapStringSint64) PicoEncode(enc *picobuf.Encoder, field picobuf.FieldNu
 //
 //go:noinline
 func (m *MapStringSint64) PicoDecode(dec *picobuf.Decoder, field picobuf.FieldNumber) {
-	var key string
-	var val int64
 	dec.RepeatedMessage(field, func(c *picobuf.Decoder) {
+		var key string
+		var val int64
 		if *m == nil {
 			*m = map[string]int64{}
 		}
@@ -5700,9 +5700,9 @@ func (m *MapStringFixed32) PicoEncode(enc *picobuf.Encoder, field picobuf.FieldN
 //
 //go:noinline
 func (m *MapStringFixed32) PicoDecode(dec *picobuf.Decoder, field picobuf.FieldNumber) {
-	var key string
-	var val uint32
 	dec.RepeatedMessage(field, func(c *picobuf.Decoder) {
+		var key string
+		var val uint32
 		if *m == nil {
 			*m = map[string]uint32{}
 		}
@@ -5733,9 +5733,9 @@ func (m *MapStringFixed64) PicoEncode(enc *picobuf.Encoder, field picobuf.FieldN
 //
 //go:noinline
 func (m *MapStringFixed64) PicoDecode(dec *picobuf.Decoder, field picobuf.FieldNumber) {
-	var key string
-	var val uint64
 	dec.RepeatedMessage(field, func(c *picobuf.Decoder) {
+		var key string
+		var val uint64
 		if *m == nil {
 			*m = map[string]uint64{}
 		}
@@ -5766,9 +5766,9 @@ func (m *MapStringSfixed32) PicoEncode(enc *picobuf.Encoder, field picobuf.Field
 //
 //go:noinline
 func (m *MapStringSfixed32) PicoDecode(dec *picobuf.Decoder, field picobuf.FieldNumber) {
-	var key string
-	var val int32
 	dec.RepeatedMessage(field, func(c *picobuf.Decoder) {
+		var key string
+		var val int32
 		if *m == nil {
 			*m = map[string]int32{}
 		}
@@ -5799,9 +5799,9 @@ func (m *MapStringSfixed64) PicoEncode(enc *picobuf.Encoder, field picobuf.Field
 //
 //go:noinline
 func (m *MapStringSfixed64) PicoDecode(dec *picobuf.Decoder, field picobuf.FieldNumber) {
-	var key string
-	var val int64
 	dec.RepeatedMessage(field, func(c *picobuf.Decoder) {
+		var key string
+		var val int64
 		if *m == nil {
 			*m = map[string]int64{}
 		}
@@ -5832,9 +5832,9 @@ func (m *MapStringFloat) PicoEncode(enc *picobuf.Encoder, field picobuf.FieldNum
 //
 //go:noinline
 func (m *MapStringFloat) PicoDecode(dec *picobuf.Decoder, field picobuf.FieldNumber) {
-	var key string
-	var val float32
 	dec.RepeatedMessage(field, func(c *picobuf.Decoder) {
+		var key string
+		var val float32
 		if *m == nil {
 			*m = map[string]float32{}
 		}
@@ -5865,9 +5865,9 @@ func (m *MapStringDouble) PicoEncode(enc *picobuf.Encoder, field picobuf.FieldNu
 //
 //go:noinline
 func (m *MapStringDouble) PicoDecode(dec *picobuf.Decoder, field picobuf.FieldNumber) {
-	var key string
-	var val float64
 	dec.RepeatedMessage(field, func(c *picobuf.Decoder) {
+		var key string
+		var val float64
 		if *m == nil {
 			*m = map[string]float64{}
 		}
@@ -5898,9 +5898,9 @@ func (m *MapStringString) PicoEncode(enc *picobuf.Encoder, field picobuf.FieldNu
 //
 //go:noinline
 func (m *MapStringString) PicoDecode(dec *picobuf.Decoder, field picobuf.FieldNumber) {
-	var key string
-	var val string
 	dec.RepeatedMessage(field, func(c *picobuf.Decoder) {
+		var key string
+		var val string
 		if *m == nil {
 			*m = map[string]string{}
 		}
@@ -5931,9 +5931,9 @@ func (m *MapStringBytes) PicoEncode(enc *picobuf.Encoder, field picobuf.FieldNum
 //
 //go:noinline
 func (m *MapStringBytes) PicoDecode(dec *picobuf.Decoder, field picobuf.FieldNumber) {
-	var key string
-	var val []byte
 	dec.RepeatedMessage(field, func(c *picobuf.Decoder) {
+		var key string
+		var val []byte
 		if *m == nil {
 			*m = map[string][]byte{}
 		}
